@@ -302,6 +302,32 @@ func genRbsDoc(r *RNG) []rbsClass {
 			}
 			c.methods = append(c.methods, m)
 		}
+		if len(out) == 0 && r.Bool() {
+			// one class method with three overloads that declare the same keyword
+			// differently: required, required after a positional, optional after two
+			un := rbsTypeSpec{rbsT{"class": "untyped"}, []string{"Untyped"}, "1"}
+			retOf := func(n string) rbsTypeSpec {
+				w := n
+				if n == "Integer" {
+					w = "Int" // the documented mapping
+				}
+				return rbsTypeSpec{rbsInst(n), []string{w}, ""}
+			}
+			kw := Pick(r, []string{"path", "mode", "alpha"})
+			ov := func(npos int, optional bool, ret string) rbsOverload {
+				o := rbsOverload{reqKw: map[string]rbsTypeSpec{}, optKw: map[string]rbsTypeSpec{}, ret: retOf(ret)}
+				for i := 0; i < npos; i++ {
+					o.req = append(o.req, un)
+				}
+				if optional {
+					o.optKw[kw] = un
+				} else {
+					o.reqKw[kw] = un
+				}
+				return o
+			}
+			c.methods = append(c.methods, rbsMethod{name: "kwo", singleton: true, arity: true, overloads: []rbsOverload{ov(0, false, "Integer"), ov(1, false, "String"), ov(2, true, "Symbol")}})
+		}
 		if !c.module {
 			c.methods = append(c.methods, rbsMethod{name: "initialize", overloads: []rbsOverload{{ret: rbsTypeSpec{rbsT{"class": "void"}, []string{"NilClass"}, ""}}}})
 		}
